@@ -1231,8 +1231,6 @@ class UCSReplication(MessagePassingComputation):
                 remaining -= hosted.footprint()
         return remaining
 
-    memoize_footprint = {}
-
     def _max_footprint(self):
         """
         Max footprint if k-1 agents disappear
@@ -1245,15 +1243,12 @@ class UCSReplication(MessagePassingComputation):
         max_agt = min(self.k_target - 1, len(tentative_agents))
         max_footprint = 0
         for selected in itertools.combinations(tentative_agents, max_agt):
-            try:
-                total_footprint = self.memoize_footprint[selected]
-            except KeyError:
-
-                total_footprint = sum(
-                    f for a, f in self._hosted_replicas.values() if a in selected
-                )
-                self.memoize_footprint[selected] = total_footprint
-
+            # Do not cache this sum: it changes every time a replica is
+            # accepted or removed (and a class-level cache would be shared by
+            # all the agents of the process).
+            total_footprint = sum(
+                f for a, f in self._hosted_replicas.values() if a in selected
+            )
             max_footprint = max(total_footprint, max_footprint)
         return max_footprint
 
